@@ -59,6 +59,24 @@ R12.9 observation matrices of the multivariate estimator: the matrix of
 R12.6 downsampled scatter (evaluated symbolically): the returned mask has
       the length of the dataset and marks exactly the events whose data are
       returned, which are selected events.
+R12.10 analysis functions leave their array arguments alone (forward
+      may-alias dataflow over the CFG, lib_C12): in every value-returning
+      function of kde_contours, kde_methods, statistics, downsampling, the
+      multivariate estimator and the KDE / downsampling entry points of
+      RTDCBase, no augmented assignment, subscript / attribute store,
+      ``out=``, in-place method or in-place numpy function – directly or
+      through a function of the same module that writes its parameter –
+      reaches a parameter or a view of it (basic slice, reshape, asarray,
+      transpose, memoryview) that was not copied first.  The KDE handed to
+      ``get_quantile_levels`` is the caller's estimate; rescaling it in place
+      changes every later level computed from it.
+R12.11 header and values of ``get_statistics`` stay paired (the parsed
+      function is evaluated on model datasets with / without a requested
+      feature, explicit and default method and feature lists): both lists
+      have the same length and the entry at position i of the header names
+      the method (and the feature) whose value stands at position i; the
+      placeholder of a feature the dataset lacks stands under a header of
+      that feature.
 """
 from __future__ import annotations
 
@@ -70,6 +88,7 @@ from ..cfg import CFG
 from ..core import (AnalysisError, call_name, const_str, dotted, kwarg,
                     last_attr, names_in, qualname, short, txt, walk)
 from ..normalize import inline_helpers
+from .. import lib_C12
 from ..lib_C02 import (Arr, ClassModel, Ev, Feat, Mini, ModelFault, NS,
                        SelfModel, numpy_model)
 
@@ -2561,6 +2580,234 @@ def r126(ctx, repo):
     ctx.stat("R12.6 evaluations", n_eval)
 
 
+# ----------------------------------------------------------------------
+# R12.10 array arguments are not written in place
+
+DSP = "dclab/downsampling.pyx"
+R1210_FILES = [KDC, KDE, STAT, DSP, KD]
+R1210_CORE = ("get_kde_scatter", "get_kde_contour", "get_kde_spacing",
+              "get_downsampled_scatter", "_apply_scale")
+R1210_MIN = 55
+
+
+def r1210(ctx, repo):
+    n_funcs = n_writes = 0
+    for rel in R1210_FILES + [CORE]:
+        if not repo.exists(rel):
+            raise AnalysisError(f"{rel}: anchored module lost")
+        mod = lib_C12.ModuleFuncs(repo, rel, DS_PARAMS)
+        todo = []
+        if rel == CORE:
+            # the KDE / downsampling entry points and the methods of the
+            # class they call
+            seen = set()
+            stack = []
+            for nm in R1210_CORE:
+                f = repo.func(CORE, "RTDCBase." + nm, missing_ok=True)
+                if f is not None:
+                    stack.append(("RTDCBase." + nm, f))
+            if len(stack) < 3:
+                raise AnalysisError("core.py: KDE / downsampling entry "
+                                    "points of RTDCBase lost")
+            quals = {id(f): q for q, f in mod.funcs.items()}
+            while stack:
+                q, f = stack.pop()
+                if id(f) in seen:
+                    continue
+                seen.add(id(f))
+                todo.append((q, f))
+                for c in walk(f):
+                    if isinstance(c, ast.Call):
+                        t = mod.resolve(c)
+                        if t is not None and id(t) in quals:
+                            stack.append((quals[id(t)], t))
+            todo.sort(key=lambda x: x[0])
+        else:
+            todo = list(mod.funcs.items())
+        for q, f in todo:
+            params = lib_C12.array_params(f, DS_PARAMS)
+            # a parameter that is called is a function, not data
+            called = {c.func.id for c in walk(f, nested=True)
+                      if isinstance(c, ast.Call)
+                      and isinstance(c.func, ast.Name)}
+            params = [p for p in params if p not in called]
+            if not params:
+                continue
+            res = lib_C12.analyse(f, mod, params)
+            if not res.has_value_return:
+                # a procedure whose effect is what it writes into its
+                # arguments: judged where it is called
+                ctx.note(f"R12.10 {rel}::{q}: no return value, writes "
+                         f"{sorted({p for _, p, _, _ in res.sites})} – "
+                         f"judged at its call sites")
+                continue
+            n_funcs += 1
+            n_writes += res.n_writes
+            unsure = [(n, p, how) for n, p, c, how in res.sites
+                      if c != lib_C12.D]
+            sure = {}
+            for n, p, c, how in res.sites:
+                if c == lib_C12.D:
+                    sure.setdefault(p, []).append((n, how))
+            if unsure and not sure:
+                n, p, how = unsure[0]
+                raise AnalysisError(
+                    f"{rel}::{q}: {how} (line {n.lineno}) may or may not "
+                    f"write into the argument `{p}` – alias not classified")
+            for p in params:
+                hits = sure.get(p, [])
+                ctx.ob("R12.10", not hits,
+                       f"`{q}` never writes into its argument `{p}` in "
+                       f"place ({res.n_writes} write sites of the function "
+                       f"examined)" if not hits else
+                       f"`{q}` modifies the caller's array `{p}` in place: "
+                       f"{hits[0][1]} (line {hits[0][0].lineno}) writes "
+                       f"into the argument (or a view of it) without a "
+                       f"copy – the caller's data are changed and every "
+                       f"later computation on the same array is off",
+                       node=f, label=f"argument {p} not written in place")
+    ctx.stat("R12.10 functions / write sites examined", [n_funcs, n_writes])
+
+
+# ----------------------------------------------------------------------
+# R12.11 header / values pairing of get_statistics
+
+class _MissingFeature(ModelFault):
+    pass
+
+
+def r1211(ctx, repo):
+    f = repo.func(STAT, "get_statistics")
+    params = [a.arg for a in f.args.args]
+    if params[:1] != ["ds"] or "methods" not in params \
+            or "features" not in params:
+        raise AnalysisError("get_statistics: signature (ds, methods, "
+                            "features) lost")
+    NAN = NS("nan_placeholder")
+
+    def label(ft):
+        return f"<<label {ft}>>"
+
+    class Meth:
+        def __init__(self, name, req):
+            self.name = name
+            self.req_feature = req
+
+        def __call__(self, *args, **kw):
+            if args or "ds" not in kw:
+                raise ModelFault(f"statistic {self.name} called without "
+                                 f"ds=")
+            if self.req_feature:
+                if "feature" not in kw:
+                    raise ModelFault(f"statistic {self.name} called "
+                                     f"without feature=")
+                if kw["feature"] not in kw["ds"]:
+                    raise _MissingFeature(
+                        f"statistic {self.name} is computed for the "
+                        f"feature '{kw['feature']}' the dataset lacks")
+                return ("val", self.name, kw["feature"])
+            if kw.get("feature") is not None:
+                raise ModelFault(f"statistic {self.name} got a feature")
+            return ("val", self.name, None)
+
+    registry = {"Mq1": Meth("Mq1", False), "Mq2": Meth("Mq2", True),
+                "Mq3": Meth("Mq3", True), "Mq4": Meth("Mq4", False)}
+
+    class DS:
+        features_scalar = ["fa", "fb"]
+        features = ["fa", "fb", "image"]
+        config = {"filtering": {"enable filters": True}}
+
+        def __contains__(self, ft):
+            return ft in ("fa", "fb", "image")
+
+    cases = []
+    for meths in (None, ["Mq2", "Mq1"], ["Mq1"], ["Mq3"],
+                  ["Mq4", "Mq3", "Mq2"]):
+        for feats in (None, ["fa", "fb"], ["fa", "gone", "fb"], ["gone"],
+                      ["fb", "gone"]):
+            cases.append((meths, feats))
+    verdict = {"length": None, "pairing": None, "complete": None}
+    n_eval = 0
+    for meths, feats in cases:
+        ds = DS()
+        g = {"np": NS("np", nan=NAN),
+             "dfn": NS("dfn", get_feature_label=lambda ft, rtdc_ds=None:
+                       label(ft)),
+             "Statistics": NS("Statistics", available_methods=dict(registry))}
+        mini = Mini(g)
+        mini.bind_module(repo.tree(STAT))
+        mini.g.update(g)
+        what = f"methods={meths}, features={feats}"
+        try:
+            got = mini.call(f, (ds,), {
+                "methods": None if meths is None else list(meths),
+                "features": None if feats is None else list(feats)})
+        except _MissingFeature as e:
+            verdict["pairing"] = verdict["pairing"] or f"{what}: {e}"
+            continue
+        except ModelFault as e:
+            raise AnalysisError(f"get_statistics on the model ({what}): {e}")
+        n_eval += 1
+        if not (isinstance(got, tuple) and len(got) == 2):
+            raise AnalysisError("get_statistics: does not return (header, "
+                                "values)")
+        header, values = list(got[0]), list(got[1])
+        use_m = list(registry) if meths is None else meths
+        use_f = DS.features_scalar if feats is None else feats
+        if len(header) != len(values):
+            verdict["length"] = verdict["length"] or (
+                f"{what}: {len(header)} header entries but {len(values)} "
+                f"values – the lists fall out of step")
+        for h, v in zip(header, values):
+            if not isinstance(h, str):
+                raise AnalysisError(f"get_statistics: header entry {h!r} "
+                                    f"is not a string")
+            if v is NAN:
+                miss = [ft for ft in use_f if ft not in ds]
+                if not any(label(ft) in h for ft in miss):
+                    verdict["pairing"] = verdict["pairing"] or (
+                        f"{what}: the nan placeholder of a missing feature "
+                        f"stands under the header '{h}'")
+            elif isinstance(v, tuple) and v and v[0] == "val":
+                ok = v[1] in h.split(" ") or h == v[1]
+                if v[2] is not None:
+                    ok = ok and label(v[2]) in h
+                if not ok:
+                    verdict["pairing"] = verdict["pairing"] or (
+                        f"{what}: the value of statistic {v[1]}"
+                        f"({v[2] or ''}) stands under the header '{h}'")
+            else:
+                raise AnalysisError(f"get_statistics: value {v!r} not "
+                                    f"recognised by the model")
+        want = [m for m in use_m if not registry[m].req_feature] + [
+            (m, ft) for ft in use_f for m in use_m
+            if registry[m].req_feature]
+        for w in want:
+            if isinstance(w, tuple):
+                n = sum(1 for h in header
+                        if w[0] in h.split(" ") and label(w[1]) in h)
+            else:
+                n = sum(1 for h in header if h == w)
+            if n != 1:
+                verdict["complete"] = verdict["complete"] or (
+                    f"{what}: statistic {w} has {n} header entries "
+                    f"(expected one)")
+    msgs = {"length": "header and values have the same length",
+            "pairing": "every value stands under the header of its own "
+                       "method and feature (nan placeholder under the "
+                       "missing feature)",
+            "complete": "every requested method x feature has exactly one "
+                        "header entry"}
+    for k in ("length", "pairing", "complete"):
+        bad = verdict[k]
+        ctx.ob("R12.11", bad is None,
+               f"get_statistics: {msgs[k]} ({n_eval} model evaluations)"
+               if bad is None else f"get_statistics: {bad}", node=f,
+               label=f"header/values {k}")
+    ctx.stat("R12.11 evaluations", n_eval)
+
+
 def run(ctx):
     repo = ctx.repo
     FILTER_ALL_NAMES.clear()
@@ -2599,6 +2846,13 @@ def run(ctx):
              "reach gpke with one row per position / event for every N "
              "(incl. N == k_vars)", minimum=2)
     r129(ctx, repo)
+    ctx.rule("R12.10", "analysis functions do not write into their array "
+             "arguments (or views of them) in place", minimum=R1210_MIN)
+    r1210(ctx, repo)
+    ctx.rule("R12.11", "get_statistics: header and values are appended "
+             "pairwise on every path (evaluated on model datasets)",
+             minimum=3)
+    r1211(ctx, repo)
     if ctx.tier == "thorough":
         other = []
         for rel in repo.files("dclab/"):
@@ -3286,3 +3540,109 @@ TWINS = list(TWINS) + [
       "    q = np.asarray(q)\n")),
 ]
 
+
+
+# round 7: R12.10 (arguments not written in place), R12.11 (header / values)
+_DP_NORM = "    if normalize:\n        dp /= density.max()\n"
+_PERFORM = "    # Perform interpolation\n    dp = spint.interpn("
+_STAT_INNER = (
+    "                if ft in ds:\n"
+    "                    values.append(meth(ds=ds, feature=ft))\n"
+    "                else:\n"
+    "                    values.append(np.nan)\n"
+    "                label = dfn.get_feature_label(ft, rtdc_ds=ds)\n"
+    "                header.append(\" \".join([mt, label]))\n")
+
+MUTANTS = list(MUTANTS) + [
+    ("quantiles: the caller's density is normalised in place", KDC,
+     [(_DP_NORM, ""),
+      (_PERFORM, "    if normalize:\n        density /= density.max()\n\n"
+       + _PERFORM)], "R12.10"),
+    ("quantiles: grid normalised in place (view of the caller's x)", KDC,
+     ("    x = x / x_norm\n", "    x /= x_norm\n"), "R12.10"),
+    ("quantiles: density normalised by a helper that writes its argument",
+     KDC,
+     [(_DP_NORM, ""),
+      (_PERFORM, "    if normalize:\n        density = _unit_max(density)\n\n"
+       + _PERFORM),
+      ("def get_quantile_levels(",
+       "def _unit_max(arr):\n    arr /= arr.max()\n    return arr\n\n\n"
+       "def get_quantile_levels(")], "R12.10"),
+    ("quantiles: density normalised with out= into the argument", KDC,
+     [(_DP_NORM, ""),
+      (_PERFORM, "    if normalize:\n        np.divide(density, "
+       "density.max(), out=density)\n\n" + _PERFORM)], "R12.10"),
+    ("contour finding: levels made absolute by rescaling the density", KDC,
+     ("    level = level * density.max()\n",
+      "    dview = np.asarray(density)\n    dview /= dview.max()\n"),
+     "R12.10"),
+    ("histogram estimator: positions sorted in place", KDE,
+     ("    if xout is None and yout is None:\n        xout = events_x\n"
+      "        yout = events_y\n",
+      "    if xout is None and yout is None:\n        xout = events_x\n"
+      "        yout = events_y\n    xout.sort()\n"), "R12.10"),
+    ("downsampling: invalid events zeroed in the caller's array", DSP,
+     ("    keep[bad] = False\n", "    keep[bad] = False\n    a[bad] = 0\n"),
+     "R12.10"),
+    ("statistics: missing feature skips the header only", STAT,
+     (_STAT_INNER,
+      "                if ft not in ds:\n"
+      "                    values.append(np.nan)\n"
+      "                    continue\n"
+      "                values.append(meth(ds=ds, feature=ft))\n"
+      "                label = dfn.get_feature_label(ft, rtdc_ds=ds)\n"
+      "                header.append(\" \".join([mt, label]))\n"), "R12.11"),
+    ("statistics: header written only for available features", STAT,
+     (_STAT_INNER,
+      "                if ft in ds:\n"
+      "                    values.append(meth(ds=ds, feature=ft))\n"
+      "                    label = dfn.get_feature_label(ft, rtdc_ds=ds)\n"
+      "                    header.append(\" \".join([mt, label]))\n"
+      "                else:\n"
+      "                    values.append(np.nan)\n"), "R12.11"),
+    ("statistics: header entry for every method in the first loop", STAT,
+     ("            values.append(meth(ds=ds))\n            header.append(mt)\n",
+      "            values.append(meth(ds=ds))\n        header.append(mt)\n"),
+     "R12.11"),
+    ("statistics: header labelled with the previous feature", STAT,
+     [("    for ft in features:\n        for mt in methods:\n",
+       "    label = \"\"\n    for ft in features:\n        for mt in methods:\n"),
+      (_STAT_INNER,
+       "                if ft in ds:\n"
+       "                    values.append(meth(ds=ds, feature=ft))\n"
+       "                else:\n"
+       "                    values.append(np.nan)\n"
+       "                header.append(\" \".join([mt, label]))\n"
+       "                label = dfn.get_feature_label(ft, rtdc_ds=ds)\n")],
+     "R12.11"),
+]
+
+TWINS = list(TWINS) + [
+    ("quantiles: grid copied, then normalised in place", KDC,
+     ("    x = x / x_norm\n", "    x = x.copy()\n    x /= x_norm\n")),
+    ("quantiles: event densities divided with out= into the fresh array", KDC,
+     (_DP_NORM, "    if normalize:\n        np.divide(dp, density.max(), "
+      "out=dp)\n")),
+    ("histogram estimator: negative densities removed with putmask", KDE,
+     ("    density[density < 0] = 0\n",
+      "    np.putmask(density, density < 0, 0)\n")),
+    ("contour finding: padded copy written in place", KDC,
+     ("        density = np.pad(density, ((1, 1), (1, 1)), mode=\"constant\")"
+      "\n",
+      "        density = np.pad(density, ((1, 1), (1, 1)), mode=\"constant\")"
+      "\n        density[0, 0] = 0\n")),
+    ("statistics: guard clauses, value computed before both appends", STAT,
+     (_STAT_INNER.replace("            if", "            if", 1),
+      "                if ft in ds:\n"
+      "                    val = meth(ds=ds, feature=ft)\n"
+      "                else:\n"
+      "                    val = np.nan\n"
+      "                label = dfn.get_feature_label(ft, rtdc_ds=ds)\n"
+      "                header.append(\" \".join([mt, label]))\n"
+      "                values.append(val)\n")),
+    ("statistics: early continue that skips nothing", STAT,
+     ("            if meth.req_feature:\n" + _STAT_INNER,
+      "            if not meth.req_feature:\n                continue\n"
+      + _STAT_INNER.replace("                ", "            ", 1)
+      .replace("\n                ", "\n            "))),
+]
